@@ -569,6 +569,17 @@ func (d *qhDom) told(h qhHeld, pubs []recconn.Pub) string {
 				Subject string `json:"subject"`
 			}
 			json.Unmarshal(p.Data, &ev)
+			// another client holding the resource with a different query asks first, on the same query event:
+			// every query request is answered for its own query
+			if dq, err := url.ParseQuery(h.query); err == nil && h.query != "" {
+				if dq.Get("prefix") == "" {
+					dq.Set("prefix", "a")
+				} else {
+					dq.Set("prefix", "")
+				}
+				decoy, _ := json.Marshal(map[string]string{"query": dq.Encode()})
+				d.run.Request(ev.Subject, decoy, 3000)
+			}
 			payload, _ := json.Marshal(map[string]string{"query": h.query})
 			resp, ok := d.run.Request(ev.Subject, payload, 3000)
 			if !ok {
